@@ -41,10 +41,12 @@ import os
 import vlib
 import wiregen as wg
 
-# from_parts with a buf_offset that is not a multiple of 8: pushes pad relative to the start of the BUFFER, the parser reads
-# relative to the start of the BODY, so a value pushed afterwards can be misaligned (reported to the lead; see run()).
-# Bodies of received messages always start at a multiple of 8.  Kept out of the histories until that is decided.
-UNALIGNED_OFFSETS = False
+# from_parts with a buf_offset that is not a multiple of 8 used to leave later pushes misaligned relative to the body (D31,
+# fix c7375b2: such an offset is normalised to 0); every offset modulo 8 is generated.
+UNALIGNED_OFFSETS = True
+# from_parts(buf, offset) with an ALIGNED offset strictly beyond buf.len(): get_buf() slices buf[offset..] and panics (reported to
+# the lead).  Kept out of the histories until that is decided; run() records the probe in the evidence.
+ALIGNED_OFFSET_BEYOND_BUFFER = False
 
 PARSER_OPS = ("PNEW", "PNEWX", "PGET", "PGETN", "PGETM", "PGETP")
 STATE_KEYS = ("sig", "buf", "nfds", "next", "left")
@@ -733,13 +735,14 @@ class Gen:
     def offset(self):
         """a generic (sometimes a long-signature) history in which the body is re-made with buf_offset > 0 - by from_parts
         with foreign bytes in front (offsets smaller and larger than the body) or by the receive path (marshal + unmarshal_next_message)
-        - once or twice, each time followed by failing pushes; the model's body has no offset"""
+        - once or twice, each time followed by failing pushes; the model's body has no offset.  Every offset modulo 8 (D31);
+        sometimes an offset at / beyond the end of the buffer (BBEYOND: the bytes are gone, the signature stays)"""
         r = self.r
         h = self.long_sig() if r.random() < 0.08 else self.generic(r.choice([2, 3, 5, 8, 12]))
         end = h.index("PNEW")
         for _ in range(r.choice([1, 1, 2])):
             at = r.randint(1, end)
-            ins = [r.choice(["BRECV", "BRECV", "BOFF %d" % self.an_offset()])]
+            ins = [r.choice(["BRECV", "BRECV", "BRECV", "BOFF %d" % self.an_offset(), "BOFF %d" % self.an_offset(), self.beyond()])]
             kinds = ["push", "pushv", "pushn", "pushm", "old", "olds", "oldtree", "params"]
             for _ in range(r.choice([1, 1, 2, 3])):
                 ins.append(self.failing(r.choice(kinds)))
@@ -751,6 +754,13 @@ class Gen:
             h[at:at] = ins
             end += len(ins)
         return h
+
+    def beyond(self):
+        """from_parts with an offset at or beyond the end of the buffer: the body keeps its signature and loses its bytes"""
+        r = self.r
+        if r.random() < 0.3:
+            return "BBEYOND 0 x"
+        return "BBEYOND %d %d" % (r.choice([0, 1, 8, 100]), r.randint(0 if ALIGNED_OFFSET_BEYOND_BUFFER else 1, 7))
 
     def an_offset(self):
         r = self.r
@@ -981,7 +991,7 @@ def check_history(ctx, h, hi, hm):
             ctx.count("res:B:" + res)
             if " via=" in li:
                 ctx.count("rehomed:" + li.rsplit(" via=", 1)[1])
-                if prev_state is not None and res == "ok" and (st.get("sig"), st.get("buf"), st.get("nfds")) != prev_state:
+                if opname != "BBEYOND" and prev_state is not None and res == "ok" and (st.get("sig"), st.get("buf"), st.get("nfds")) != prev_state:
                     return ("re-making the body at another offset changed it (harness)", k, "protocol")
             state = (st.get("sig"), st.get("buf"), st.get("nfds"))
             if res == "panic":
@@ -1274,13 +1284,11 @@ def run(ctx):
                 "bytes, descriptor count (builder); result, value tokens, next signature, signatures left, buf_idx, sig_idx (parser). "
                 "non-trivial = at least one failing operation or a reset; distinct = distinct histories"
                 % (n_generic, n_decode, n_long, n_tree, n_offset))
-    # informational, never a verdict: from_parts with a buf_offset that is not a multiple of 8, then a push of an 8-aligned value
-    probe = ["BNEW le", "BPUSH y y 1", "BOFF 4", "BPUSH t t 9", "PNEW", "PGETP", "PGETP"]
+    # informational, never a verdict (see ALIGNED_OFFSET_BEYOND_BUFFER): an aligned offset strictly beyond the buffer
+    probe = ["BNEW le", "BPUSHN y 8 y 1 y 1 y 1 y 1 y 1 y 1 y 1 y 1", "BBEYOND 8 0", "BPUSH y y 2"]
     _, pout, _ = vlib.run_lines(exe, [], probe)
-    ctx.extra["unaligned_offset_probe"] = {"input": probe, "impl": pout,
-                                           "pushed_value_reads_back": bool(pout) and pout[-1].startswith("ok t 9"),
-                                           "note": "pushes pad relative to the start of the buffer, the parser reads relative to the start of the body; "
-                                                   "histories use multiples of 8 only (UNALIGNED_OFFSETS)"}
+    ctx.extra["aligned_offset_beyond_buffer_probe"] = {"input": probe, "impl": pout, "panics": any(x.startswith("panic") for x in pout),
+                                                       "note": "from_parts(buf, offset) with offset % 8 == 0 and offset > buf.len(): get_buf() slices buf[offset..]"}
     g = Gen(r, cat, mix)
     histories = []
     kinds = []
